@@ -110,10 +110,22 @@ example : annot T0 sample2 = .bigint ∧ eng T0 sample2 = .hugeint := by decide 
 
 /-! ### what the unchanged tree gets wrong (outside `WF`; each family is a known_pending/C16.json entry) -/
 
-/-- `NULLIF(1, UPPER(v))`: sqlglot coerces both arguments (TEXT), DuckDB returns the first argument's type (INTEGER) -/
+/-- the tables with NULLIF typed from both arguments (the unchanged tree) / from its first argument only
+    (pending_fixes/C16-nullif.diff), whatever the live table says -/
+def T0nullifBoth : Tables := { T0 with md := fun c => if c = .nullif then .byArgs [true, true] false else T0.md c }
+def T0nullifFirst : Tables := { T0 with md := fun c => if c = .nullif then .byArgs [true, false] false else T0.md c }
+
+/-- `NULLIF(1, UPPER(v))`: coercing both arguments gives TEXT, DuckDB returns the first argument's type (INTEGER) -/
 theorem nullif_witness :
     let e := TExpr.bin .nullif .intLit (.un .upper (.col .text))
-    annot T0 e = .varchar ∧ eng T0 e = .integer ∧ WF T0 e = false := by decide +kernel
+    annot T0nullifBoth e = .varchar ∧ eng T0nullifBoth e = .integer ∧ annot T0nullifFirst e = .int := by decide +kernel
+
+/-- complete finite decision: typed from its first argument, NULLIF agrees with DuckDB for EVERY pair of operands the engine
+    accepts (no domain restriction) -/
+theorem nullif_first_arg_agrees :
+    (Sm.all.all fun a => Sm.all.all fun b => (compat a).all fun ea => (compat b).all fun eb =>
+      T0.duckBin .nullif ea eb == .error
+      || Rel (.of (annotBin T0nullifFirst .nullif a b)) (T0.duckBin .nullif ea eb)) = true := by decide +kernel
 
 /-- `da - da`: sqlglot DATE, DuckDB BIGINT; `ts - ts`: TIMESTAMP vs INTERVAL -/
 theorem date_minus_date_witness :
